@@ -117,13 +117,14 @@ def _extract(cfg, repo, crate, out):
     sys.stderr.write("[extract] %s facts in %.1fs -> %s\n" % (cfg, time.time() - t0, out))
 
 
-def _prune(keep=24):
-    fs = sorted(glob.glob(os.path.join(CACHE, "facts", "*.jsonl")), key=os.path.getmtime, reverse=True)
-    for f in fs[keep:]:
-        try:
-            os.remove(f)
-        except OSError:
-            pass
+def _prune(keep=16):
+    for cfg in CONFIGS:
+        fs = sorted(glob.glob(os.path.join(CACHE, "facts", cfg + "-*.jsonl")), key=os.path.getmtime, reverse=True)
+        for f in fs[keep:]:
+            try:
+                os.remove(f)
+            except OSError:
+                pass
 
 
 if __name__ == "__main__":
